@@ -19,7 +19,7 @@ FLOORS = {"quick": {"decisions": 30000, "decisions_multi_level": 8000, "higher_a
                     "lower_served_after_higher_emptied": 2000},
           "thorough": {"decisions": 600000, "decisions_multi_level": 160000, "higher_arrived_during_lower_tx": 40000,
                        "lower_served_after_higher_emptied": 40000}}
-KEYS = tuple(FLOORS["quick"].keys()) + ("back_to_back", "idle_then_arrival", "arrival_at_tx_end",
+KEYS = tuple(FLOORS["quick"].keys()) + ("higher_arrived_between_pick_and_start", "back_to_back", "idle_then_arrival", "arrival_at_tx_end",
                                          "arrival_at_tx_end_after_departure")
 
 
@@ -42,30 +42,47 @@ def gen_case(rng, i):
 
 
 def priority_rule(run, stats, bad):
+    """At every start of service no *certainly visible* higher-priority packet may be waiting.
+
+    The boundary sees when SP hands a packet to transmission (send_packet), not when it picked it: SP takes the
+    packet out of its queue and starts the transmission a few kernel steps later inside the same instant.  A packet
+    that arrives in between is "waiting" at the tap although no scan could have seen it.  SP resumes in a later kernel
+    step than the event that enabled the decision (the previous departure, or the arrival that ended the idle
+    period), so everything that had arrived up to and including that step was certainly visible to the scan.
+    Arrivals in later steps of the instant, before the tap, are counted, not judged (they are judged at the next
+    start of service)."""
     prio = run.tbl
     arr = run.arr
-    decided = set()
     dec_iter = sorted(run.dec, key=lambda d: d[0])
+    dep_seq = sorted((d[0], d[1]) for d in run.dep)
     ai = 0
-    waiting = {}          # uid -> (flow, prio)
+    waiting = {}          # uid -> (flow, prio, arrival time, arrival seq)
     in_tx = None
+    kdep = 0
     for d in dec_iter:
         while ai < len(arr) and arr[ai][0] < d[0]:
             a = arr[ai]
-            waiting[a[3]] = (a[4], prio[a[4]], a[2])
+            waiting[a[3]] = (a[4], prio[a[4]], a[2], a[1])
             ai += 1
+        while kdep < len(dep_seq) and dep_seq[kdep][0] < d[0]:
+            kdep += 1
+        prev_dep = dep_seq[kdep - 1][1] if kdep else -1      # kernel step of the previous departure
         u = d[3]
         if u not in waiting:
             bad("decided-packet-not-waiting", "a packet was handed to transmission that was not waiting", u)
             return
-        f, p, _ = waiting.pop(u)
+        oldest = min(x[3] for x in waiting.values())          # (incl. the packet served)
+        f, p, _, _ = waiting.pop(u)
         levels = {x[1] for x in waiting.values()} | {p}
         if len(levels) >= 2:
             stats["decisions_multi_level"] += 1
         higher = [x for x in waiting.values() if x[1] > p]
-        if higher:
+        certain = [x for x in higher if x[3] <= max(prev_dep, oldest)]
+        if higher and not certain:
+            stats["higher_arrived_between_pick_and_start"] += 1
+        if certain:
             bad("lower-priority-served-while-higher-waits", "SP started transmitting a packet while a packet of a strictly higher priority was waiting",
-                {"served_priority": p, "waiting_priority": higher[0][1], "now": d[2], "arrived_at": higher[0][2]})
+                {"served_priority": p, "waiting_priority": certain[0][1], "now": d[2], "arrived_at": certain[0][2]})
             return
         if any(x[1] < p for x in waiting.values()) is False and in_tx is not None and in_tx > p:
             stats["lower_served_after_higher_emptied"] += 1
